@@ -11,18 +11,20 @@ package manifest
 // updateDesc re-serialises the typed manifest and recomputes the descriptor from exactly those
 // bytes: afterwards the stored raw body is the serialisation of the current struct, the digest is
 // the hash of the raw body under the algorithm of the previous digest, the size is its length.
-//@ func (*{oci1Manifest,oci1Index,oci1Artifact,docker2Manifest,docker2ManifestList}).updateDesc() (err)
+//@ func (*{oci1Manifest=mediatype.OCI1Manifest,oci1Index=mediatype.OCI1ManifestList,oci1Artifact=mediatype.OCI1Artifact,docker2Manifest=mediatype.Docker2Manifest,docker2ManifestList=mediatype.Docker2ManifestList}).updateDesc() (err)
 //@   prop C02
 //@   let algo = m.desc.DigestAlgo()
 //@   ensures raw-is-serialisation: err == nil ==> $str(m.rawBody) == $json(m.GetOrig()) && len(m.rawBody) > 0
 //@   ensures digest-of-raw: err == nil ==> m.desc.Digest == $fromBytes(algo, $str(m.rawBody))
 //@   ensures size-of-raw: err == nil ==> m.desc.Size == len(m.rawBody)
 //@   ensures failure-changes-nothing: err != nil ==> m.rawBody == old(m.rawBody) && m.desc == old(m.desc)
+//@   ensures descriptor-states-the-types-media-type: err == nil ==> m.desc.MediaType == %1
+//@   ensures declared-media-type-untouched: m.MediaType == old(m.MediaType)
 
 // Every setter that reports success leaves the manifest in the same state: the raw body is the
 // serialisation of the struct the getters read, and the descriptor is the hash and length of that
 // raw body (every setter funnels through updateDesc, or recomputes all three itself).
-//@ func (*{oci1Manifest,oci1Index,oci1Artifact,docker2Manifest,docker2ManifestList,docker1Manifest}).{SetAnnotation,SetConfig,SetLayers,SetManifestList,SetSubject,SetOrig}
+//@ func (*{oci1Manifest,oci1Index,oci1Artifact,docker2Manifest,docker2ManifestList,docker1Manifest}).{SetAnnotation,SetConfig,SetLayers,SetManifestList,SetSubject}
 //@   prop C02
 //@   let algo = m.desc.DigestAlgo()
 //   the descriptor equation is an invariant of every non-signed manifest (established by the
@@ -31,6 +33,28 @@ package manifest
 //@   ensures raw-is-serialisation: result == nil ==> $str(m.rawBody) == $json(m.GetOrig()) && len(m.rawBody) > 0
 //@   ensures digest-of-raw: result == nil ==> m.desc.Digest == $fromBytes(algo, $str(m.rawBody))
 //@   ensures size-of-raw: result == nil ==> m.desc.Size == len(m.rawBody)
+//@ func (*docker1Manifest).SetOrig
+//@   prop C02
+//@   let algo = m.desc.DigestAlgo()
+//   the descriptor equation is an invariant of every non-signed manifest (established by the
+//   constructors below, re-established by every setter): a setter may rely on it at entry
+//@   entry-assume m.manifSet && len(m.rawBody) > 0 ==> m.desc.Digest == $fromBytes(algo, $str(m.rawBody)) && m.desc.Size == len(m.rawBody)
+//@   ensures raw-is-serialisation: result == nil ==> $str(m.rawBody) == $json(m.GetOrig()) && len(m.rawBody) > 0
+//@   ensures digest-of-raw: result == nil ==> m.desc.Digest == $fromBytes(algo, $str(m.rawBody))
+//@   ensures size-of-raw: result == nil ==> m.desc.Size == len(m.rawBody)
+// SetOrig replaces the whole struct: "its media type never contradicts the one the body declares" -
+// the media type written into the struct that is serialised is the one the descriptor reports, whatever
+// the struct the caller handed in said.
+//@ func (*{oci1Manifest=mediatype.OCI1Manifest,oci1Index=mediatype.OCI1ManifestList,oci1Artifact=mediatype.OCI1Artifact,docker2Manifest=mediatype.Docker2Manifest,docker2ManifestList=mediatype.Docker2ManifestList}).SetOrig
+//@   prop C02
+//@   let algo = m.desc.DigestAlgo()
+//   the descriptor equation is an invariant of every non-signed manifest (established by the
+//   constructors below, re-established by every setter): a setter may rely on it at entry
+//@   entry-assume m.manifSet && len(m.rawBody) > 0 ==> m.desc.Digest == $fromBytes(algo, $str(m.rawBody)) && m.desc.Size == len(m.rawBody)
+//@   ensures raw-is-serialisation: result == nil ==> $str(m.rawBody) == $json(m.GetOrig()) && len(m.rawBody) > 0
+//@   ensures digest-of-raw: result == nil ==> m.desc.Digest == $fromBytes(algo, $str(m.rawBody))
+//@   ensures size-of-raw: result == nil ==> m.desc.Size == len(m.rawBody)
+//@   ensures body-declares-the-descriptors-media-type: result == nil ==> m.MediaType == %1 && m.desc.MediaType == %1
 // schema1 signed manifests are addressed by the digest of their canonical (unsigned) payload
 //@ func (*docker1SignedManifest).SetOrig(origIn) (err)
 //@   prop C02
